@@ -13,6 +13,7 @@ import (
 
 type attachClient struct {
 	BaseClient
+	InlinePure
 	p         *Program
 	chain     *types.Func
 	canAttach *types.Func
